@@ -153,6 +153,15 @@ class Parser:
             return e
         if k == "id":
             self.i += 1
+            # `a.b.max(` : a method call on the path `a.b`, not a field named max
+            nk, nv = self.peek()
+            if nk == "op" and nv == "(" and "." in v and v.rsplit(".", 1)[1] in ("max", "min", "abs"):
+                base, meth = v.rsplit(".", 1)
+                self.t[self.i - 1] = ("id", base)
+                self.t.insert(self.i, ("id", meth))
+                self.t.insert(self.i, ("op", "."))
+                self.i -= 1
+                return self.atom()
             if v in ("true", "false"):
                 return (v, "bool")
             if v in self.env:
